@@ -414,19 +414,26 @@ func Ground(smt string, want []string, lenBound int, boundTerms []string) string
 	for _, a := range asserts {
 		fs = append(fs, g.elimQ(a, true))
 	}
-	// extensionality for sequence disequalities
-	for _, f := range fs {
-		collectTerms(f, func(t *sx) {
-			if t.head() == "=" && len(t.list) == 3 {
-				for x, info := range seqSfx {
-					if termSort(t.list[1], g.sorts) == info[0] {
-						k := g.skolem("Int")
-						a, b := t.list[1], t.list[2]
-						fs = append(fs, parseSexprs(fmt.Sprintf("(=> (not %s) (or (not (= (len_%s %s) (len_%s %s))) (and (<= 0 %s) (< %s (len_%s %s)) (not (= (at_%s %s %s) (at_%s %s %s))))))", t, x, a, x, b, k, k, x, a, x, a, k, x, b, k))[0])
+	// extensionality for sequence disequalities (two passes: elements of sequences of sequences)
+	start := 0
+	doneEq := map[string]bool{}
+	for pass := 0; pass < 2; pass++ {
+		end := len(fs)
+		for _, f := range fs[start:end] {
+			collectTerms(f, func(t *sx) {
+				if t.head() == "=" && len(t.list) == 3 && !doneEq[t.String()] {
+					for x, info := range seqSfx {
+						if termSort(t.list[1], g.sorts) == info[0] || termSort(t.list[2], g.sorts) == info[0] {
+							doneEq[t.String()] = true
+							k := g.skolem("Int")
+							a, b := t.list[1], t.list[2]
+							fs = append(fs, parseSexprs(fmt.Sprintf("(=> (not %s) (or (not (= (len_%s %s) (len_%s %s))) (and (<= 0 %s) (< %s (len_%s %s)) (not (= (at_%s %s %s) (at_%s %s %s))))))", t, x, a, x, b, k, k, x, a, x, a, k, x, b, k))[0])
+						}
 					}
 				}
-			}
-		})
+			})
+		}
+		start = end
 	}
 	seen := map[string]bool{}
 	var inst []string
